@@ -288,6 +288,10 @@ package utils
 //@ func (*Converter).ExpandUpdates
 //@   props C20
 //@   requires c != nil && c.schemaClientBound != nil
+// assumed of the protobuf library: the clone of a path is a path, and a nil path is cloned to a nil path only
+//@ extern google.golang.org/protobuf/proto.Clone
+//@   noeffect
+//@   ensures a_path_stays_a_path: istype(m, *sdcpb.Path) ==> istype(result, *sdcpb.Path) && (dyn(m, *sdcpb.Path) != nil ==> dyn(result, *sdcpb.Path) != nil)
 //@ func (*Converter).ExpandUpdate
 //@   props C20
 //@   requires c != nil && c.schemaClientBound != nil
